@@ -1,4 +1,5 @@
 import FpgoVerif.Proofs.C13Ask
+import FpgoVerif.Proofs.C13Fan
 import FpgoVerif.Model.C13
 import FpgoVerif.Gen.Skeletons
 import FpgoVerif.Gen.MailboxFacts
@@ -118,6 +119,89 @@ example : ∃ s, Reach { mcap := 0, reply := replyFn, legacy := false } (fun i =
     (runActs { mcap := 0, reply := replyFn, legacy := false } s [.read 0, .replySend, .finish 0]).map (fun t => (t.asker 0).pc)
       = some (.retV 701) :=
   ⟨_, reach_of_run [.call 0, .send 0, .compute] rfl, rfl, rfl, rfl⟩
+
+/-! ## fan-in: k AskChannel requests on ONE shared caller-made reply channel, late collector (`fanin` case lines)
+
+    `Fan.step c` for every capacity `c` (0 included), every list `replies` of reply values in service order (any `k`),
+    every schedule (the collector starts whenever it likes). -/
+
+/-- Nothing dropped, nothing duplicated, service order kept: received ++ buffered ++ the value inside `Reply` ++ not yet
+    produced is exactly the list of replies. -/
+theorem C13_fanin_conservation {c replies s} (h : Fan.Reach c replies s) :
+    s.got ++ s.buf ++ Fan.optl s.cur ++ s.todo = replies := (Fan.reach_inv h).cons
+
+/-- The shared channel never holds more than its capacity. -/
+theorem C13_fanin_bound {c replies s} (h : Fan.Reach c replies s) : s.buf.length ≤ c := (Fan.reach_inv h).bound
+
+/-- The actor is blocked in `Reply` only while the buffer is full (for an unbuffered channel: only while the collector
+    has not started to receive). -/
+theorem C13_fanin_blocked_only_when_full {c replies s v} (h : Fan.Reach c replies s) (hc : s.cur = some v) :
+    (Fan.step c s .replyBuf).isSome = true ∨ (Fan.step c s .replyHand).isSome = true ∨
+      (s.buf.length = c ∧ (0 < c ∨ s.collecting = false)) := by
+  have hb := (Fan.reach_inv h).bound
+  by_cases hroom : s.buf.length < c
+  · left; simp [Fan.step, hc, hroom]
+  · have hfull : s.buf.length = c := by omega
+    by_cases h0 : c = 0
+    · cases hcol : s.collecting with
+      | true => right; left; simp [Fan.step, hc, h0, hcol]
+      | false => right; right; exact ⟨hfull, Or.inr rfl⟩
+    · right; right; exact ⟨hfull, Or.inl (Nat.pos_of_ne_zero h0)⟩
+
+/-- … and one receive of the collector releases it: after `recv` the buffered send of `Reply` is enabled. -/
+theorem C13_fanin_released_by_recv {c replies s v} (h : Fan.Reach c replies s) (hc : s.cur = some v)
+    (hcol : s.collecting = true) (hfull : s.buf.length = c) (hpos : 0 < c) :
+    ∃ t, Fan.step c s .recv = some t ∧ (Fan.step c t .replyBuf).isSome = true := by
+  cases hb : s.buf with
+  | nil => rw [hb] at hfull; simp at hfull; omega
+  | cons w rest =>
+    refine ⟨{ s with buf := rest, got := s.got ++ [w] }, by simp [Fan.step, hcol, hb], ?_⟩
+    have : rest.length < c := by rw [hb] at hfull; simp at hfull; omega
+    simp [Fan.step, hc, this]
+
+/-- No deadlock: every reachable state that is not terminal has an enabled atom; once the collector receives, an atom
+    other than `start` (so: as long as the collector keeps receiving, actor and collector never wait for each other). -/
+theorem C13_fanin_no_deadlock {c replies s} (h : Fan.Reach c replies s) (hnt : ¬ s.terminal) :
+    ∃ a, (Fan.step c s a).isSome = true ∧ (s.collecting = true → a ≠ .start) := by
+  cases hcol : s.collecting with
+  | false => exact ⟨.start, by simp [Fan.step, hcol], by simp⟩
+  | true =>
+    cases hc : s.cur with
+    | some v =>
+      rcases C13_fanin_blocked_only_when_full h hc with h1 | h1 | h1
+      · exact ⟨.replyBuf, h1, by simp⟩
+      · exact ⟨.replyHand, h1, by simp⟩
+      · rcases h1.2 with hpos | hf
+        · obtain ⟨t, ht, _⟩ := C13_fanin_released_by_recv h hc hcol h1.1 hpos
+          exact ⟨.recv, by simp [ht], by simp⟩
+        · rw [hcol] at hf; cases hf
+    | none =>
+      cases ht : s.todo with
+      | cons v rest => exact ⟨.take, by simp [Fan.step, hc, ht], by simp⟩
+      | nil =>
+        cases hb : s.buf with
+        | cons w rest => exact ⟨.recv, by simp [Fan.step, hcol, hb], by simp⟩
+        | nil => exact absurd ⟨ht, hc, hb, hcol⟩ hnt
+
+/-- At quiescence the collector has received exactly the k replies (as a list in service order, hence as a multiset):
+    `received = k` is what every terminal state yields — what `handle` prints for a `fanin` line. -/
+theorem C13_fanin_all_received {c replies s} (h : Fan.Reach c replies s) (ht : s.terminal) :
+    s.got = replies ∧ s.got.length = replies.length := by
+  have hc := (Fan.reach_inv h).cons
+  obtain ⟨h1, h2, h3, _⟩ := ht
+  rw [h1, h2, h3] at hc
+  have : s.got = replies := by simpa [Fan.optl] using hc
+  exact ⟨this, by rw [this]⟩
+
+/-- non-vacuity: capacity 1, three replies, the collector starts when the actor is already blocked in its second `Reply` -/
+example : ∃ s, Fan.Reach 1 [10, 20, 30] s ∧ s.cur = some 20 ∧ s.buf = [10] ∧ s.collecting = false ∧
+    (Fan.runActs 1 s [.start, .recv, .replyBuf, .take, .recv, .replyBuf, .recv]).map (fun t => (t.got, decide (t.todo = []))) =
+      some ([10, 20, 30], true) :=
+  ⟨_, Fan.reach_of_run [.take, .replyBuf, .take] rfl, rfl, rfl, rfl, rfl⟩
+
+/-- non-vacuity: unbuffered shared channel, hand-off only once the collector receives -/
+example : ∃ s, Fan.Reach 0 [7, 8] s ∧ s.terminal ∧ s.got = [7, 8] :=
+  ⟨_, Fan.reach_of_run [.take, .start, .replyHand, .take, .replyHand] rfl, ⟨rfl, rfl, rfl, rfl⟩, rfl⟩
 
 /-! ## the tie: protocol skeletons and facts regenerated from the repository on every run -/
 
